@@ -4,6 +4,7 @@
 #include <sstream>
 #include <csignal>
 #include <sys/time.h>
+#include <sys/resource.h>
 #include <unistd.h>
 
 namespace vf {
@@ -32,13 +33,26 @@ RunCtx makeCtx(const std::string &tag) {
     }
     return c;
 }
-static void caseCpuHandler(int) { const char m[] = "\nCPU-BUDGET-EXCEEDED: one case used more CPU time than VERIF_CASE_CPU_S allows\n"; ssize_t r = write(2, m, sizeof m - 1); (void)r; _exit(97); }
-void caseCpuGuard(bool on) {
-    static long limit = -1;
-    if (limit < 0) { const char *e = getenv("VERIF_CASE_CPU_S"); limit = e ? atol(e) : 180; signal(SIGPROF, caseCpuHandler); }
-    if (limit == 0) return;
-    struct itimerval it; it.it_interval.tv_sec = 0; it.it_interval.tv_usec = 0; it.it_value.tv_sec = on ? limit : 0; it.it_value.tv_usec = 0;
+// per-case CPU guard: ITIMER_PROF fires after `limit` seconds of process CPU time (user + kernel). Kernel time can be inflated by memory
+// pressure on a loaded machine (page reclaim is charged to the faulting process), so the verdict is taken on USER time only: the case is
+// ended when it has used `limit` seconds of user time since it began; otherwise the timer is re-armed
+static long g_caseLimit = -1;
+static double g_caseUserStart = 0;
+static double userSeconds() { struct rusage ru; getrusage(RUSAGE_SELF, &ru); return static_cast<double>(ru.ru_utime.tv_sec) + static_cast<double>(ru.ru_utime.tv_usec) / 1e6; }
+static void armCaseTimer(long seconds) {
+    struct itimerval it; it.it_interval.tv_sec = 0; it.it_interval.tv_usec = 0; it.it_value.tv_sec = seconds; it.it_value.tv_usec = 0;
     setitimer(ITIMER_PROF, &it, nullptr);
+}
+static void caseCpuHandler(int) {
+    const double used = userSeconds() - g_caseUserStart;
+    if (used + 1.0 < static_cast<double>(g_caseLimit)) { long rest = g_caseLimit - static_cast<long>(used); armCaseTimer(rest < 5 ? 5 : rest); return; }
+    const char m[] = "\nCPU-BUDGET-EXCEEDED: one case used more CPU time than VERIF_CASE_CPU_S allows\n"; ssize_t r = write(2, m, sizeof m - 1); (void)r; _exit(97);
+}
+void caseCpuGuard(bool on) {
+    if (g_caseLimit < 0) { const char *e = getenv("VERIF_CASE_CPU_S"); g_caseLimit = e ? atol(e) : 180; signal(SIGPROF, caseCpuHandler); }
+    if (g_caseLimit == 0) return;
+    if (on) g_caseUserStart = userSeconds();
+    armCaseTimer(on ? g_caseLimit : 0);
 }
 } // namespace vf
 
